@@ -115,6 +115,8 @@ class SetupService:
     exchange (new salt and secret every time), a failed M3 or any out-of-order message ends it, a lost link ends it.
     Keeps a log of what it was asked and what it decided, for oracles."""
 
+    REFUSE: dict = {}  # request state -> error codes to answer the next requests of that state with (set and cleared by a harness)
+
     def __init__(self, ident: Identity, code: str, seed):
         self.ident, self.code, self.seed = ident, code, seed
         self.setups = []  # every exchange ever started
@@ -135,6 +137,14 @@ class SetupService:
             self.reset()
             return err(2, b"\x01")
         st = req.get(T_STATE)
+        q = self.REFUSE.get(st[0] if st else None)
+        if q:
+            # scripted by a harness: this accessory answers the next requests of that step with an error code (busy with another controller,
+            # too many attempts, ...).  Whatever exchange was live is over.
+            code = q.pop(0)
+            self.log.append((st[0], "refused:" + code.hex()))
+            self.reset()
+            return err(st[0] + 1, code)
         if st == b"\x01":
             n = len(self.setups)
             self.cur = SetupAccessory(self.ident, self.code, C.det_bytes(self.seed, f"salt|{n}", 16), int.from_bytes(C.det_bytes(self.seed, f"srp-b|{n}", 32), "big"))
